@@ -4,28 +4,13 @@
    keeps the canonical forms (the specification's own, DSym!CanonSet) of what has been
    emitted; the End action compares them with the universe, which is a TLA+ set: all tuples
    of involutions on n chambers with commuting non-adjacent operations that are connected. *)
-EXTENDS DSym, Json, IOUtils
+EXTENDS SetClasses, Json, IOUtils
 Rec == ndJsonDeserialize(IOEnv.TRACE)
 VARIABLES l, dim, max, seen, count
 vars == <<l, dim, max, seen, count>>
 Init == l = 1 /\ dim = 0 /\ max = 0 /\ seen = {} /\ count = 0
-Inv(n) == {f \in [1..n -> 1..n] : \A d \in 1..n : f[f[d]] = d}
-Commute(f, g, n) == \A d \in 1..n : f[g[d]] = g[f[d]]
-\* the classes are accumulated family by family (one family per choice of the commuting operations), so that
-\* no set with millions of tuples is ever built
-Mk(n, dm, t) == [n |-> n, dim |-> dm, op |-> t]
-ClassesOfFamily(n, dm, tuples) == {CanonSet(T) : T \in {U \in {Mk(n, dm, t) : t \in tuples} : Connected(U)}}
-TuplesAll(n, dm) == LET I == Inv(n)  P == {q \in I \X I : Commute(q[1], q[2], n)} IN
-   IF dm = 1 THEN {<<a, b>> : a \in I, b \in I}
-   ELSE IF dm = 2 THEN {<<p[1], b, p[2]>> : p \in P, b \in I}
-   ELSE {<<z[1][1], z[2][1], z[1][2], z[2][2]>> : z \in {w \in P \X P : Commute(w[1][1], w[2][2], n)}}
-Classes(n, dm) == LET I == Inv(n)  P == {q \in I \X I : Commute(q[1], q[2], n)}  k == Cardinality(I) IN
-   \* one set when it stays well below TLC's bound on constructed sets (faster), family by family otherwise
-   IF (dm = 1 /\ k * k < 800000) \/ (dm = 2 /\ k * k * k < 800000) \/ (dm = 3 /\ k * k * k * k < 800000)
-   THEN ClassesOfFamily(n, dm, TuplesAll(n, dm))
-   ELSE IF dm = 1 THEN UNION {ClassesOfFamily(n, dm, {<<a, b>> : b \in I}) : a \in I}
-   ELSE IF dm = 2 THEN UNION {ClassesOfFamily(n, dm, {<<p[1], b, p[2]>> : b \in I}) : p \in P}
-   ELSE UNION {ClassesOfFamily(n, dm, {<<p[1], q[1], p[2], q[2]>> : q \in {w \in P : Commute(p[1], w[2], n)}}) : p \in P}
+\* the universe: SetClasses!ClassesReduced (equal to the classes of ALL tuples of involutions: MC_SetClasses)
+Classes(n, dm) == ClassesReduced(n, dm)
 Header(e) == dim' = e.dim /\ max' = e.max /\ seen' = {} /\ count' = 0
 EmitOK(e) == LET S == e.set IN
    /\ S.dim = dim /\ S.n <= max
